@@ -1,12 +1,19 @@
 import Driver.Proto
 import Model.U128
 import Model.I128
+import Model.U128Hw
 /-! Driver of C01.  Line protocol: `u <op> <args…>` / `i <op> <args…>`; a 128-bit operand is `hi:lo` (hex), a 64-bit
     operand is `x<hex>` (for `int64` operands: the two's-complement bit pattern), counts and bit indexes are decimal.
-    Outputs: `hi:lo`, `x<hex>`, decimal integers, `true`/`false`, `panic:divzero`.
+    Outputs: `hi:lo`, `x<hex>`, decimal integers, `true`/`false`, `panic:divzero`.  `u limit max`, `i limit max`,
+    `i limit min` print the exported limit variables `MaxUint128`, `MaxInt128`, `MinInt128`.
 
-    Which panic.  `Res.panic` of the model is the library's own explicit panic `panic(divByZero)` (the string
-    "divide by zero"): as the code stands, all twelve division entry points raise exactly that one for a zero divisor —
+    Which panic.  The twelve division entry points are run through `Model/U128Hw.lean` (`divC`, `divModWC`, … : every
+    machine division `x / y`, `x % y` of the entry points and of the two Knuth kernels is a partial operation there), whose
+    outcome `Out` keeps the library's own explicit panic `panic(divByZero)` (the string "divide by zero", `Out.divzero`,
+    printed `panic:divzero`) apart from the Go runtime's integer-divide panic (`Out.hwdiv`, printed
+    `panic:runtime-divide`).  `Props/C01.lean` (`hw_unsigned_eq`, `hw_signed_eq`, `hw_never_runtime_panic`) proves that these
+    functions are the total model `Model/U128.lean` / `Model/I128.lean` the spec theorems speak about and never produce
+    `hwdiv`.  As the code stands, all twelve entry points raise exactly the explicit panic for a zero divisor —
     `Uint128.Div/Div64/DivMod/DivMod64/Mod/Mod64` test the divisor first and call `panic(divByZero)`, and the six `Int128`
     entry points reach one of those with the magnitude of the divisor (`Div -> Uint128.Div`, `Div64 -> Uint128.Div64`,
     `DivMod -> Uint128.DivMod`, `DivMod64 -> DivMod`, `Mod -> DivMod`, `Mod64 -> DivMod64`).  No entry point lets the
@@ -34,9 +41,10 @@ def fW (w : BitVec 64) : String := "x" ++ natToHex w.toNat
 def fU (u : U128) : String := natToHex u.hi.toNat ++ ":" ++ natToHex u.lo.toNat
 def fI (i : I128) : String := natToHex i.hi.toNat ++ ":" ++ natToHex i.lo.toNat
 def fB (b : Bool) : String := if b then "true" else "false"
-def fRes {α : Type} (f : α → String) : U128.Res α → String
+def fOut {α : Type} (f : α → String) : U128.Out α → String
   | .ok v => f v
-  | .panic => "panic:divzero"
+  | .divzero => "panic:divzero"
+  | .hwdiv => "panic:runtime-divide"
 def fUU (p : U128 × U128) : String := fU p.1 ++ " " ++ fU p.2
 def fII (p : I128 × I128) : String := fI p.1 ++ " " ++ fI p.2
 
@@ -117,9 +125,9 @@ def runU (op : String) (args : List Arg) : String :=
   | "add", [.u a, .u b] => fU (a.add b)
   | "sub", [.u a, .u b] => fU (a.sub b)
   | "mul", [.u a, .u b] => fU (a.mul b)
-  | "div", [.u a, .u b] => fRes fU (a.div b)
-  | "mod", [.u a, .u b] => fRes fU (a.mod b)
-  | "divmod", [.u a, .u b] => fRes fUU (a.divMod b)
+  | "div", [.u a, .u b] => fOut fU (a.divC b)
+  | "mod", [.u a, .u b] => fOut fU (a.modC b)
+  | "divmod", [.u a, .u b] => fOut fUU (a.divModC b)
   | "and", [.u a, .u b] => fU (a.and b)
   | "or", [.u a, .u b] => fU (a.or b)
   | "xor", [.u a, .u b] => fU (a.xor b)
@@ -134,9 +142,9 @@ def runU (op : String) (args : List Arg) : String :=
   | "add64", [.u a, .w b] => fU (a.addW b)
   | "sub64", [.u a, .w b] => fU (a.subW b)
   | "mul64", [.u a, .w b] => fU (a.mulW b)
-  | "div64", [.u a, .w b] => fRes fU (a.divW b)
-  | "mod64", [.u a, .w b] => fRes fU (a.modW b)
-  | "divmod64", [.u a, .w b] => fRes fUU (a.divModW b)
+  | "div64", [.u a, .w b] => fOut fU (a.divWC b)
+  | "mod64", [.u a, .w b] => fOut fU (a.modWC b)
+  | "divmod64", [.u a, .w b] => fOut fUU (a.divModWC b)
   | "and64", [.u a, .w b] => fU (a.andW b)
   | "or64", [.u a, .w b] => fU (a.orW b)
   | "xor64", [.u a, .w b] => fU (a.xorW b)
@@ -171,9 +179,9 @@ def runI (op : String) (args : List Arg) : String :=
   | "add", [.u a, .u b] => fI ((I128.ofU a).add (I128.ofU b))
   | "sub", [.u a, .u b] => fI ((I128.ofU a).sub (I128.ofU b))
   | "mul", [.u a, .u b] => fI ((I128.ofU a).mul (I128.ofU b))
-  | "div", [.u a, .u b] => fRes fI ((I128.ofU a).div (I128.ofU b))
-  | "mod", [.u a, .u b] => fRes fI ((I128.ofU a).mod (I128.ofU b))
-  | "divmod", [.u a, .u b] => fRes fII ((I128.ofU a).divMod (I128.ofU b))
+  | "div", [.u a, .u b] => fOut fI ((I128.ofU a).divC (I128.ofU b))
+  | "mod", [.u a, .u b] => fOut fI ((I128.ofU a).modC (I128.ofU b))
+  | "divmod", [.u a, .u b] => fOut fII ((I128.ofU a).divModC (I128.ofU b))
   | "cmp", [.u a, .u b] => toString ((I128.ofU a).cmp (I128.ofU b))
   | "gt", [.u a, .u b] => fB ((I128.ofU a).greaterThan (I128.ofU b))
   | "ge", [.u a, .u b] => fB ((I128.ofU a).greaterThanOrEqual (I128.ofU b))
@@ -183,9 +191,9 @@ def runI (op : String) (args : List Arg) : String :=
   | "add64", [.u a, .w b] => fI ((I128.ofU a).addW b)
   | "sub64", [.u a, .w b] => fI ((I128.ofU a).subW b)
   | "mul64", [.u a, .w b] => fI ((I128.ofU a).mulW b)
-  | "div64", [.u a, .w b] => fRes fI ((I128.ofU a).divW b)
-  | "mod64", [.u a, .w b] => fRes fI ((I128.ofU a).modW b)
-  | "divmod64", [.u a, .w b] => fRes fII ((I128.ofU a).divModW b)
+  | "div64", [.u a, .w b] => fOut fI ((I128.ofU a).divWC b)
+  | "mod64", [.u a, .w b] => fOut fI ((I128.ofU a).modWC b)
+  | "divmod64", [.u a, .w b] => fOut fII ((I128.ofU a).divModWC b)
   | "cmp64", [.u a, .w b] => toString ((I128.ofU a).cmpW b)
   | "gt64", [.u a, .w b] => fB ((I128.ofU a).greaterThanW b)
   | "ge64", [.u a, .w b] => fB ((I128.ofU a).greaterThanOrEqualW b)
@@ -211,6 +219,9 @@ def runI (op : String) (args : List Arg) : String :=
 def step (_ : Unit) (line : String) : Unit × String :=
   let out :=
     match words line with
+    | ["u", "limit", "max"] => fU U128.maxU128
+    | ["i", "limit", "max"] => fI I128.maxI128
+    | ["i", "limit", "min"] => fI I128.minI128
     | "u" :: op :: rest =>
       match rest.mapM parseArg with
       | some args => runU op args
